@@ -1,5 +1,6 @@
 import AmrK.HeaderProofs
 import AmrK.Codec
+import AmrK.CellHCodec
 /-! # C02 — opening a plotfile exposes exactly the metadata its headers state
 
 Line/token model of `PlotfileCooker.__init__` + `read_boxes` (`Header.parse`) and of
@@ -29,6 +30,13 @@ theorem grids_are_cell_centres (lo hi dx : Rat) (n i : Nat) (hn : 2 ≤ n) (hw :
     text every writer of the toolbox prints) -/
 theorem fab_header_codec (lo hi : List Int) (nf : Nat) (hlo : lo ≠ []) (hhi : hi ≠ []) (hlen : lo.length = hi.length) :
     Taste.parseFabHeader (canonB lo hi nf) = some ⟨lo, hi, (nf : Int)⟩ := parse_canonB lo hi nf hlo hhi hlen
+
+/-- **`parse ∘ render = id` for the level header**: the text a writer prints for any list of boxes
+    (index ranges of any dimension, file names without whitespace, offsets) parses back to exactly
+    those index ranges, binary files and byte offsets, in order -/
+theorem level_header_parse_render (nf : Nat) (rows : List Taste.BoxRow) (hg : ∀ r ∈ rows, r.Good) :
+    Taste.parseCellH (Taste.renderCellH nf rows) nf = .ok (rows.map Taste.BoxRow.entry) :=
+  Taste.parseCellH_render nf rows hg
 
 /-- non-vacuity: the names a, b, a, a are exposed as a, b, a_2, a_3 with indices 0..3 -/
 example :
